@@ -630,10 +630,16 @@ package priority
 //@   ensures [*] result.Ctx != nil
 
 // The ghost state of a discipline that does not exist yet is empty.
+// C16: Stop() returns when the goroutine calls Complete(); a discipline that was handed out has that goroutine.
+//@ ghost var gMainStarted bool [C16]
+//@ event go priority.(*Discipline).main
+//@   effect gMainStarted := true
 //@ func New
-//@   requires [*] ghost-initial-state: !gIntStopped && !gPendSet && (forall k :: gInN[k] == 0 && gOutNP[k] == 0) && gInfl == 0 && (forall k :: gInflP[k] == 0) && !gDivErr && !gStop && !gGraceful && !gCompleted && (forall k :: !in(gClosedIn, k)) && gPset == domset(opts.Inputs) && gH == opts.HandlersQuantity
-//@   modifies gDivErr, gPerm, gInv, anyelems(uint)
+//@   requires [*] ghost-initial-state: !gMainStarted && !gIntStopped && !gPendSet && (forall k :: gInN[k] == 0 && gOutNP[k] == 0) && gInfl == 0 && (forall k :: gInflP[k] == 0) && !gDivErr && !gStop && !gGraceful && !gCompleted && (forall k :: !in(gClosedIn, k)) && gPset == domset(opts.Inputs) && gH == opts.HandlersQuantity
+//@   modifies gMainStarted, gDivErr, gPerm, gInv, anyelems(uint)
 //@   ensures [*] result1 == nil ==> result0 != nil
+//@   ensures [C16] the-goroutine-that-answers-stop-is-running: result1 == nil ==> gMainStarted
+//@   ensures [* C01 C02] options-are-kept: result1 == nil ==> (result0.opts.HandlersQuantity == opts.HandlersQuantity && result0.opts.Output == opts.Output && result0.opts.Feedback == opts.Feedback && result0.opts.Inputs == opts.Inputs)
 
 // ---------------------------------------------------------------- C14: the dividers
 
@@ -761,6 +767,19 @@ package priority
 //@   ensures true
 
 //@ event recv done ()
+
+// The simplified discipline's constructor: the inner discipline gets exactly HandlersQuantity slots
+// (as many as handlers are started), and delivers to / is released through the channels the
+// handlers use; the goroutine that answers Stop() is started.
+//@ ghost var gSMainStarted bool [C16]
+//@ event go priority.(*Simple).main
+//@   effect gSMainStarted := true
+//@ func NewSimple
+//@   requires [*] ghost-initial-state: !gSMainStarted && gSSpawned == 0 && !gSWaited && !gSCancelled && !gSInnerStop
+//@   modifies gSMainStarted, gMainStarted, gDivErr, gPerm, gInv, anyelems(uint), gClock
+//@   ensures [C16] the-goroutine-that-answers-stop-is-running: result1 == nil ==> gSMainStarted
+//@   ensures [C01] inner-capacity-is-the-number-of-handlers: result1 == nil ==> (result0.priority != nil && result0.priority.opts.HandlersQuantity == result0.opts.HandlersQuantity && result0.opts.HandlersQuantity == opts.HandlersQuantity)
+//@   ensures [C02 C07] handlers-use-the-inner-discipline-channels: result1 == nil ==> (result0.priority.opts.Output == result0.output && result0.priority.opts.Feedback == result0.feedback)
 
 //@ func (*Simple).gracefulStop
 //@   requires [*] smpl != nil && smpl.priority != nil
